@@ -73,12 +73,26 @@ package rfc7523
 // The handler's collaborators are set when it is composed and never re-assigned (checked over the repository's code).
 //@ wiring Handler : Storage, Config, HandleHelper
 
+//@ func (*Handler).PopulateTokenEndpointResponse
+//@   requires c != nil && c.HandleHelper != nil && request != nil && response != nil && request.GetSession() != nil && request.GetClient() != nil
+//@   modifies anyheap, acc_exists, acc_rid, acc_client, acc_req, stored, faults, tx_escaped
+//@   ensures [C01.issue-touches-only-its-grant] request.GetID() == old(request.GetID()) && (forall s string :: acc_exists[s] ==> acc_rid[s] == request.GetID() || (old(acc_exists[s]) && acc_rid[s] == old(acc_rid[s])))
+
 // ---------------------------------------------------------------- history lemma (ghost driver in verif_history.go), see DESIGN 0.9
 //@ interface verifEnv.More
 //@ interface verifEnv.Request
-//@   ensures result != nil && result.GetClient() != nil
+//@   ensures result != nil && result.GetClient() != nil && result.GetSession() != nil
+//@   ensures (forall s string :: code_exists[s] ==> result.GetID() != code_rid[s]) && result.GetID() != grant_id(recv)
+//@ interface verifEnv.Response
+//@   ensures result != nil
+//@ interface verifEnv.Kind
+//@ interface verifEnv.Grant
 //@ func verifHistoryJWTBearer
+//@   let rid0 = grant_id(env)
 //@   requires env != nil && c != nil && c.Storage != nil && c.Config != nil && c.HandleHelper != nil
 //@   modifies everything
+//@   invariant loop#1 [C01.dead-grant-stays-dead] old(dead(sig0) && ids_distinct()) ==> dead(sig0) && ids_distinct()
+//@   invariant loop#1 [C04.dead-family-stays-dead] old(deadrid(rid0)) ==> deadrid(rid0)
+//@   invariant loop#1 [C08.revoked-grant-stays-revoked] old(deadrid(rid0)) ==> deadrid(rid0)
 //@   invariant loop#1 [C15.seen-jti-stays-seen] old(jti_seen[jti0]) ==> jti_seen[jti0]
 //@   ensures [C15.seen-jti-stays-seen] old(jti_seen[jti0]) ==> jti_seen[jti0]
